@@ -241,6 +241,18 @@ var classes = []class{
 			o.Annotations = map[string]string{features.FeatureGateAnnotationKey: "NoSuchGate=true"}
 			return o
 		},
+		demo: func(o *proxyv1alpha1.UpstreamCluster) (bool, string) {
+			// create path, and the update path: the same object without the annotation is applied first, then the annotation
+			// is added (ClusterInfo.Sync starts with the feature gates and returns their error before anything else is applied)
+			c, _ := applyGateway(o, nil)
+			stored := o.DeepCopy()
+			stored.Annotations = nil
+			u, ok := applyGateway(o, stored)
+			if !c.clean() && ok && !u.clean() {
+				return true, fmt.Sprintf("create: %s %s; annotation added by an update: %s %s", c.Kind, c.Detail, u.Kind, u.Detail)
+			}
+			return false, fmt.Sprintf("create: %s; update: %s (applied: %v)", c.Kind, u.Kind, ok)
+		},
 	},
 	{
 		name: "policy-subset-unknown",
